@@ -77,16 +77,15 @@ def replay_obj(flavour, lines, note=""):
     return {"flavour": flavour, "lines": lines, "note": note}
 
 
-def death_violation(acc, pid, death, flavour, lines, what):
-    """A worker died on its own (sanitizer report, assert, signal) with
-    lines[death.line] in flight."""
+def death_violation(acc, pid, death, flavour, inflight, what, setup=()):
+    """A worker died on its own (sanitizer report, assert, signal) while the
+    command line `inflight` was being executed."""
     kind = death.kind()
     frame = death.frame()
     key = "%s/%s/%s/%s" % (pid, kind, frame, what)
-    inflight = lines[death.line] if death.line < len(lines) else "?"
     acc.violation(key, "worker died (%s in %s) on: %s :: %s" % (
         kind, frame, inflight[:300], death.brief()[-600:].replace("\n", " | ")),
-        replay_obj(flavour, lines[:death.line + 1], death.brief()))
+        replay_obj(flavour, list(setup) + [inflight], death.brief()))
     return key
 
 
